@@ -634,10 +634,12 @@ PrintStep(ev) ==
        /\ Chk("C14", "row.known", r # <<>>, [i |-> ev.i], "unknown.row")
        /\ Chk("C14", "row.cells", (r # <<>> /\ Fits(cols, ev.header, r[1])) => RowOK(ev.lines[j], cols, ev.header, r[1]), [i |-> ev.i], "cells")
        /\ Chk("C14", "marker.without.value", (r # <<>> /\ Fits(cols, ev.header, r[1])) => MarkersOK(ev.lines[j], cols, ev.header), [i |-> ev.i], "marker")
+       /\ Chk("C17", "shown.country", r # <<>> => CellBy(ev.header, cols, ev.lines[j], N_RG) = PadR(r[1].regcp, 2), [i |-> ev.i], "RG")
        /\ Chk("C14", "threat.marker", (r # <<>> /\ Fits(cols, ev.header, r[1])) => ThreatOK(ev.lines[j], cols, ev.header, r[1]), [i |-> ev.i], "threat")
        /\ Chk("C14", "row.width", (r # <<>> /\ Fits(cols, ev.header, r[1])) => Len(ev.lines[j]) = Len(ev.header), [i |-> ev.i], "width")
   /\ Chk("C14", "one.line.each", Len(ev.lines) = Len(ev.rows), ev, "count")
   /\ Mark("C14", Len(ev.rows) > 0, ev)
+  /\ Mark("C17", Len(ev.rows) > 0, ev)
   /\ Chk("C15", "each.once", Len(ev.lines) = Len(ev.rows) /\ Cardinality(ToSet(pa)) = Len(ev.rows)
                               /\ ToSet(pa) = {ev.rows[j].a : j \in 1..Len(ev.rows)}, ev, "permutation")
   /\ Chk("C15", "order", IF key = 0 THEN NonDecr(pa) ELSE Monotone(key, ks), ev,
